@@ -200,8 +200,41 @@ def deep_digest(o):
 # ---------------------------------------------------------------------------
 # perturbations
 
+def run_failing_call(which):
+    """Library calls that raise (and are caught by the caller): whatever they leave behind must not matter."""
+    import sempler
+    import sempler.utils as U
+    import sempler.generators as gens
+    cyc = np.array([[0, 1.0], [1.0, 0]])
+    calls = [
+        lambda: sempler.LGANM(cyc, (0, 1), (0, 1), random_state=3),
+        lambda: sempler.LGANM(np.zeros((2, 2)), np.zeros(3), np.ones(2)),
+        lambda: sempler.ANM(cyc, [None, None], [None, None]),
+        lambda: sempler.NormalDistribution([0, 0], np.eye(3)),
+        lambda: sempler.NormalDistribution([0, 0], np.eye(2)).conditional([0], [0, 1], [0.0, 1.0]),
+        lambda: sempler.LGANM(np.zeros((2, 2)), np.zeros(2), np.ones(2)).sample(3, do_interventions={0: "x"}, random_state=1),
+        lambda: gens.intervention_targets(3, 2, 5, random_state=2),
+        lambda: gens.intervention_targets(3, 4, 1, replace=False, random_state=2),
+        lambda: U.split_data([np.zeros((4, 2))], [0.5, 0.6], random_state=4),
+        lambda: U.add_edges(np.zeros((2, 2)), 9, random_state=1),
+        lambda: U.remove_edges(np.zeros((2, 2)), 1, random_state=1),
+        lambda: U.separates({0}, {0}, {1}, np.zeros((2, 2))),
+        lambda: U.pdag_to_dag(np.array([[0, 1, 0, 1], [1, 0, 1, 0], [0, 1, 0, 1], [1, 0, 1, 0]])),
+        lambda: U.pdag_to_icpdag(np.array([[0, 1, 0, 0], [0, 0, 0, 0], [0, 0, 0, 1], [0, 0, 1, 0]]), {0, 2}),
+        lambda: U.mec(cyc),
+        lambda: U.all_dags(np.array([[0, 1, 1], [1, 0, 1], [1, 1, 0]]), max_combinations=2),
+    ]
+    try:
+        calls[which % len(calls)]()
+        return False
+    except Exception:
+        return True
+
+
 def make_perturbation(rng):
-    c = int(rng.integers(0, 8))
+    c = int(rng.integers(0, 9))
+    if c == 8:
+        return {"op": "failing-call", "v": int(rng.integers(0, 64))}
     if c == 0:
         return {"op": "reseed-global", "v": int(rng.integers(0, 2**32))}
     if c == 1:
@@ -231,6 +264,8 @@ def run_perturbation(pt):
     elif op == "noise-factory":
         noise.normal(1, 2)(pt["v"])
         noise.laplace()(3)
+    elif op == "failing-call":
+        run_failing_call(pt["v"])
     else:
         try:
             run_target(pt["target"], seeded=pt["seeded"])
@@ -251,6 +286,11 @@ def gen(tier, seed, shard, nshards):
         progs = [[make_perturbation(rng) for _ in range(int(rng.integers(1, 5)))] for _ in range(2)]
         step = (cfg["hist"] // cfg["fresh"]) | 1
         yield "history", {"target": target, "programs": progs, "fresh": bool(k % step == 0)}
+    for k in range(len(TARGETS) * (2 if tier == "quick" else 12)):
+        if k % nshards != shard:
+            continue
+        rng = util.rng_for("C13", seed, "long", k)
+        yield "long-history", {"target": make_target(rng, TARGETS[k % len(TARGETS)]), "repeats": 150}
     for k in range(cfg["hist"] // 4):
         if k % nshards != shard:
             continue
@@ -286,6 +326,26 @@ def judge(family, case, rec):
             return
         if a == b and target.get("n", 1) >= 1:
             rec.violation("C13:unseeded-calls-identical-" + kind, family, case, "two consecutive unseeded %s calls returned identical samples" % kind)
+        return
+    if family == "long-history":
+        # the 150th call must still answer like the first
+        rec.case(family, case, True)
+        try:
+            call = prepare(target)
+            first = call(True)
+            for r in range(case["repeats"]):
+                if r % 10 == 3:
+                    call(False)
+                if r % 25 == 7:
+                    run_failing_call(r)
+                d = call(True)
+                if d != first:
+                    rec.violation("C13:not-reproducible-after-many-calls-" + kind, family, case,
+                                  "%s with random_state=%d: call number %d on the same object differs from the first" % (kind, target["seed"], r + 2))
+                    return
+            rec.count("long-history:calls", case["repeats"])
+        except Exception as e:
+            rec.exception_violation("C13:target-exception-" + kind, family, case, "seeded %s raised in a long history" % kind, e)
         return
     rec.count("target:" + kind)
     if target.get("np_seed"):
